@@ -86,7 +86,9 @@ def shape_of(prog, f, side):
 
     def relevant(e):
         return e['k'] == 'call' and e.get('fn') is not None and ('serde' in e['path'] or e['name'] in WALKS or (e['name'] in ('serialize', 'deserialize') and (e['f'].get('trait') or '').startswith('resource::')))
-    E = pathsem.analyse(prog, f, max_paths=20000)
+    # resolved calls to sibling methods of the same impl are followed (a thin `by_row`/`by_column` wrapper over one
+    # shared walk writes what that walk writes for the argument it passes)
+    E = pathsem.analyse(prog, f, max_paths=20000, inline=lambda c, f=f: f.impl is not None and c.impl is f.impl and c.dp != f.dp)
     cands = [p for p in E.paths if p.ended == 'return' and not (isinstance(p.ret, tuple) and p.ret[0] == 'agg' and p.ret[2] == 'Err')]
     if not cands:
         cands = [p for p in E.paths if p.ended in ('return', 'cutoff')]
